@@ -11,6 +11,12 @@ def dispatch(pid, tier, replay):
     if pid in ("C01", "C03", "C04", "C05", "C06", "C13"):
         import solver_checks
         return solver_checks.run(pid, tier)
+    if pid == "C15":
+        import content_checks
+        return content_checks.c15(tier)
+    if pid == "C16":
+        import content_checks
+        return content_checks.c16(tier)
     raise common.MachineryError("no check for " + pid)
 
 
